@@ -39,7 +39,7 @@ NoDup(c) == Cardinality(ToSet(c.nondust)) = Len(c.nondust) /\ Cardinality(ToSet(
 TraceInit ==
   /\ l = 1 /\ nodeOf = <<>> /\ saved = <<>> /\ everRAA = <<>> /\ projB = <<>>
   /\ fw = [adds |-> {}, downFul |-> {}, upClaimed |-> {}, settledNow |-> {}, base0 |-> <<>>, pol |-> <<>>,
-           shut |-> {}, closeFee |-> <<>>, newInfl |-> {}, crashed |-> {}, liveAtCrash |-> {}]
+           shut |-> {}, closeFee |-> <<>>, newInfl |-> {}, crashed |-> {}, liveAtCrash |-> {}, snapKnows |-> <<>>, needSent |-> {}]
   /\ par = <<>> /\ cnt = <<>> /\ hs = <<>> /\ fees = <<>> /\ feeBase = <<>> /\ base = <<>>
   /\ link = <<>> /\ redo = <<>> /\ lastCS = <<>> /\ order = <<>> /\ pts = <<>> /\ mon = <<>>
   /\ ownExp = <<>>
@@ -72,7 +72,7 @@ TOpen ==
         /\ saved' = <<>> /\ projB' = <<>>
         /\ fw' = [adds |-> {}, downFul |-> {}, upClaimed |-> {}, settledNow |-> {},
                    base0 |-> [e \in E |-> IF e[2] = 1 THEN cs[ch(e[1])].bal_a_msat ELSE cs[ch(e[1])].bal_b_msat],
-                   pol |-> R.policy, shut |-> {}, closeFee |-> [c \in C |-> 0], newInfl |-> {}, crashed |-> {}, liveAtCrash |-> {}]
+                   pol |-> R.policy, shut |-> {}, closeFee |-> [c \in C |-> 0], newInfl |-> {}, crashed |-> {}, liveAtCrash |-> {}, snapKnows |-> <<>>, needSent |-> {}]
 
 \* not part of the commitment protocol; `warning` / `disconnect_peer` ask the transport to drop the
 \* peer (the harness then disconnects, as PeerManager would) -- an `error` is never acceptable
@@ -214,7 +214,9 @@ TMgrSnap ==
   /\ IsEvent("mgr_snap")
   /\ saved' = [k \in DOMAIN saved \cup {<<R.node, R.k>>} |->
                  IF k = <<R.node, R.k>> THEN Snapshot(EPsOf(R.node)) ELSE saved[k]]
-  /\ UNCHANGED <<cvars, nodeOf, everRAA, projB, fw>>
+  /\ fw' = [fw EXCEPT !.snapKnows = [k \in DOMAIN @ \cup {<<R.node, R.k>>} |->
+                 IF k = <<R.node, R.k>> THEN {p[2] : p \in {q \in fw.downFul : q[1] = R.node}} ELSE @[k]]]
+  /\ UNCHANGED <<cvars, nodeOf, everRAA, projB>>
 
 MonIds == [e \in EPsOf(R.node) |->
              LET ks == {k \in 1..Len(R.mons) : R.mons[k].chan = e[1]} IN
@@ -225,7 +227,15 @@ TCrash ==
   /\ UNCHANGED <<nodeOf, saved, everRAA, projB>>
   /\ fw' = [fw EXCEPT !.crashed = @ \cup {R.node},
                        !.liveAtCrash = {p \in @ : p[1] # R.node} \cup
-                          {<<R.node, x.hash>> : x \in UNION {{y \in hs[e] : y.dir = "out" /\ MonIds[e] >= mon[e].last} : e \in {z \in EPsOf(R.node) : ~Closed(z)}}}]
+                          {<<R.node, x.hash>> : x \in UNION {{y \in hs[e] : y.dir = "out" /\ MonIds[e] >= mon[e].last} : e \in {z \in EPsOf(R.node) : ~Closed(z)}}},
+                       \* claims the durable monitor knows (peer's signature for the removal was accepted, so the
+                       \* holder-commitment update recorded the claim) but the restored manager does not: the
+                       \* restarted node must report them as sent again (own payments)
+                       !.needSent = {p \in @ : p[1] # R.node} \cup
+                          {<<R.node, x.hash>> : x \in UNION {{y \in hs[e] : y.dir = "out" /\ y.res = "fulfill" /\ y.rem >= 1
+                                                                     /\ MonIds[e] >= mon[e].last /\ UpAdds(R.node, y.hash) = {}
+                                                                     /\ y.hash \notin (IF <<R.node, R.mgr>> \in DOMAIN fw.snapKnows THEN fw.snapKnows[<<R.node, R.mgr>>] ELSE {})}
+                                                              : e \in {z \in EPsOf(R.node) : ~Closed(z)}}}]
   /\ IF <<R.node, R.mgr>> \in DOMAIN saved
      THEN Restart(EPsOf(R.node), PeersOf(R.node), saved[<<R.node, R.mgr>>], MonIds)
      ELSE \* the snapshot taken right after channel open (k = 0): nothing had happened yet
@@ -261,7 +271,8 @@ TBroadcast ==
 \* ---- events: a closed channel has no place on an honest off-chain run
 CoopClose == R.kind = "ChannelClosed" /\ R.reason = "CooperativeClosure"
 TEvent ==
-  /\ IsEvent("event") /\ UNCHANGED Aux
+  /\ IsEvent("event") /\ UNCHANGED <<nodeOf, saved, everRAA, projB>>
+  /\ fw' = IF R.kind = "PaymentSent" THEN [fw EXCEPT !.needSent = @ \ {<<R.node, R.hash>>}] ELSE fw
   /\ IF CoopClose /\ ~Closed(EP(R.chan, R.node))
      THEN \* a cooperative close needs a shutdown exchange and no pending HTLC
           /\ G1(R.chan \in fw.shut /\ hs[EP(R.chan, R.node)] = {})
@@ -285,6 +296,8 @@ TProj ==
   /\ projB' = [n \in DOMAIN projB \cup {<<R.node, R.chan>>} |-> IF n = <<R.node, R.chan>> THEN R ELSE projB[n]]
   \* at the end of a wound-down run nothing is left pending on an open channel
   /\ (R.final /\ ~Closed(EP(R.chan, R.node))) => G1(R.n_in = 0 /\ R.n_out = 0 /\ hs[EP(R.chan, R.node)] = {})
+  \* C10: every claim the durable monitor knew at a crash was reported again as PaymentSent
+  /\ R.final => G10(\A p \in fw.needSent : p[1] # R.node)
   \* C02: at the end every preimage the node learned downstream was used upstream, and the node's
   \* combined irrevocable balance is not below what it started with
   /\ (R.final /\ ~AnyClosed(R.node)) =>
